@@ -180,6 +180,10 @@ func c15Exec(x *engine.Ctx, cc any) {
 	x.Outcome(fmt.Sprintf("k=%d kind=%d explored", c.K, c.Kind))
 }
 
+var c15Count int
+
+const c15CLIEvery = 25
+
 var c15KindNames = []string{"none", "error-no-write", "error-after-prefix", "death-after-prefix", "death-after-write"}
 
 func c15One(x *engine.Ctx, c *c15Case, base *hstate, strat int, f simfs.Fault, f2 *simfs.Fault) {
@@ -219,6 +223,13 @@ func c15One(x *engine.Ctx, c *c15Case, base *hstate, strat int, f simfs.Fault, f
 			return
 		}
 	}
+	// binding to the shipped binary: the recovery of every c15CLIEvery-th fault point is also run
+	// on the built binary (torn file = truncated file in a native directory)
+	c15Count++
+	var cliState *hstate
+	if (x.Replay || c15Count%c15CLIEvery == 0) && s.W.ClockMode == simfs.TickPerWrite {
+		cliState = s.clone()
+	}
 	// recovery: next run with the default flags
 	t0 := time.Now().Unix()
 	r2 := drive.Run(s.W, drive.Default, nil)
@@ -257,6 +268,17 @@ func c15One(x *engine.Ctx, c *c15Case, base *hstate, strat int, f simfs.Fault, f
 		}
 		if pk, err := a.Cert.PublicKey(); err == nil && !a.Key.SamePublic(pk) {
 			v("after-recovery/key-does-not-match-certificate", alias)
+		}
+	}
+	if cliState != nil {
+		cres, cerr := drive.RunCLI(cliState.W, drive.Default, "y\n")
+		if cerr == nil {
+			x.TraceValidated(1)
+			if cres.Exit != 0 {
+				v("cli-binding/recovery-exit-status", fmt.Sprintf("binary exit %d: %s", cres.Exit, short(cres.Stdout, 300)))
+			} else if canonKeyOpt(cliState, false) != canonKeyOpt(s, false) {
+				v("cli-binding/recovered-state-differs", fmt.Sprintf("lib: %s\n  cli: %s", short(canonKeyOpt(s, false), 1200), short(canonKeyOpt(cliState, false), 1200)))
+			}
 		}
 	}
 	// a further run is a no-op
